@@ -1010,11 +1010,20 @@ fn parse_files0_args(config: &mut Config) -> Result<(), Box<dyn Error>> {
         buffer_split.remove(buffer_split.len() - 1);
     }
 
-    let mut string_segments: Vec<String> = buffer_split
-        .iter()
-        .filter_map(|s| std::str::from_utf8(s).ok())
-        .map(|s| s.to_string())
-        .collect();
+    // Like the starting points on the command line, the names have to be valid UTF-8;
+    // one that is not must not just vanish from the list.
+    let mut string_segments: Vec<String> = Vec::with_capacity(buffer_split.len());
+    for name in &buffer_split {
+        match std::str::from_utf8(name) {
+            Ok(name) => string_segments.push(name.to_string()),
+            Err(_) => {
+                return Err(From::from(format!(
+                    "invalid (non-UTF-8) file name '{}' in the -files0-from list",
+                    String::from_utf8_lossy(name)
+                )))
+            }
+        }
+    }
     // empty starting point checker
     if string_segments.iter().any(|s| s.is_empty()) {
         eprintln!("find: invalid zero-length file name");
